@@ -6,6 +6,7 @@
  * With hideproc=1 the bottom process first hides /proc (private mount namespace, empty tmpfs): every list must PASS. */
 #define _GNU_SOURCE
 #include <errno.h>
+#include <fcntl.h>
 #include <sched.h>
 #include <stdio.h>
 #include <stdlib.h>
@@ -28,6 +29,8 @@ static void oracle_ancestors(void) {
         long pp = -1; char name[64] = "";
         while (fgets(line, sizeof line, f)) { if (!strncmp(line, "Name:\t", 6)) { strncpy(name, line + 6, 63); name[strcspn(name, "\n")] = 0; } else if (!strncmp(line, "PPid:\t", 6)) pp = atol(line + 6); }
         fclose(f);
+        /* the name itself comes from /proc/<pid>/comm (raw bytes + one line feed): `status` escapes line feeds and backslashes */
+        { char cp[64]; snprintf(cp, sizeof cp, "/proc/%ld/comm", p); int cf = open(cp, O_RDONLY); if (cf >= 0) { char cb[64]; ssize_t cn = read(cf, cb, sizeof cb - 1); close(cf); if (cn > 0) { if (cb[cn - 1] == '\n') cn--; cb[cn] = 0; strcpy(name, cb); } } }
         strcpy(anc[nanc++], name);
         p = pp;
     }
@@ -47,7 +50,7 @@ int main(int argc, char **argv) {
     snoopy_init();
     FILE *lf = fopen(listfile, "r"); if (!lf) { perror(listfile); return 3; }
     static char line[1 << 16]; long n = 0, bad = 0; int shown = 0;
-    printf("ANC"); for (int i = 0; i < nanc; i++) printf(" [%s]", anc[i]); printf("\n");
+    printf("ANC"); for (int i = 0; i < nanc; i++) { printf(" ["); for (char *q = anc[i]; *q; q++) putchar(*q == '\n' ? '^' : *q); printf("]"); } printf("\n");
     while (fgets(line, sizeof line, lf)) {
         line[strcspn(line, "\n")] = 0; char *list = unhex(line[0] ? line : "-");
         /* oracle: some ancestor's name equals some non-empty comma-separated item */
@@ -58,7 +61,7 @@ int main(int argc, char **argv) {
         static const int ambient[] = { 0, ENOENT, ERANGE, EINTR }; errno = ambient[n % 4];   /* the caller's ambient errno rotates: it must not matter */
         int r = snoopy_filterregistry_callByName("exclude_spawns_of", list);
         n++;
-        if ((r == SNOOPY_FILTER_DROP) != expect_drop) { bad++; if (shown++ < 20) printf("MISMATCH list=[%s] got=%s expected=%s\n", list, r == SNOOPY_FILTER_DROP ? "drop" : "pass", expect_drop ? "drop" : "pass"); }
+        if ((r == SNOOPY_FILTER_DROP) != expect_drop) { bad++; if (shown++ < 20) for (char *q = list; *q; q++) if (*q == '\n') *q = '^'; printf("MISMATCH list=[%s] got=%s expected=%s\n", list, r == SNOOPY_FILTER_DROP ? "drop" : "pass", expect_drop ? "drop" : "pass"); }
         free(list);
     }
     fclose(lf);
